@@ -14,7 +14,7 @@ from ..wasm import I32, Module, Func
 ID = 'C20'
 LEVEL = 'exploration'
 RULE = ('generated sandbox tree root/{cwd,in,out[/sub],other}; module and reference module in in/; output path relative, '
-        'absolute, with ./ or sub/../ components, with/without extension; decoys in every directory: names matching '
+        'absolute, with ./ or sub/../ components, with/without extension; output directory names with glob / shell / printf characters next to sibling directories such a pattern would match; decoys in every directory: names matching '
         '[sd]<10 digits>.c and near misses (9/11 digits, other prefix letter, upper case, a non-digit, .h/.cc/.c~ extensions, '
         'non-empty directories and symlinks with matching names, dot files); options -c on/off x -f N x -t N x -d gnu-ld x -r x '
         '-p x -g; a quarter of the runs fail (truncated module, a body the C writer rejects, missing input). Oracle: SHA-256/type/mode snapshot of the whole tree before and after. Created or modified paths must be '
@@ -76,11 +76,16 @@ def build_case(ch):
         k = ch.below(nf)
         ref.funcs[k] = Func(ref.funcs[k].type, [], [('i32.const', 4242)])   # ... except one
     nested = ch.below(3) == 1
-    outdir = 'out/sub' if nested else 'out'
+    # the output directory's own name may contain characters that mean something to glob(3), the shell or printf; siblings whose names
+    # such a pattern would match hold implementation-file names too - they are other directories and must stay as they are
+    outname, siblings = ch.pick((('out', ()), ('out', ()), ('out', ()), ('o[tu]t', ('out', 'ott')), ('out*', ('out', 'outer')), ('ou?', ('out', 'oux')),
+                                 ('o\\ut', ('out',)), ('out dir', ('out',)), ('-out', ()), ('%sout%d', ()), ('{out,in}', ('out',)), ('out~', ()),
+                                 ('[out]', ('o', 'u', 't'))))
+    outdir = (outname + '/sub') if nested else outname
     form = ch.below(8)        # 6, 7: the output path names the output DIRECTORY with trailing separators ("../out/", "../out//")
     base = ch.pick(['m.c', 'm.c', 'out.c', 'noext', 'a.b.c', 'x.cc', 'module.c'])
     decoys = {}
-    for d in ('cwd', 'in', 'out', 'out/sub', 'other', '.'):
+    for d in ('cwd', 'in', 'out', 'out/sub', 'other', '.') + tuple('sib:' + x for x in siblings):
         names = []
         for _ in range(ch.below(7)):
             names.append((ch.pick(NEAR_MISSES), 'file'))
@@ -88,6 +93,8 @@ def build_case(ch):
             kind = ch.weighted([(6, 'file'), (1, 'dir'), (1, 'link')])
             # directories / symlinks only under names the translator will not write itself (file indices stay < 100)
             names.append((ch.pick(MATCHING if kind == 'file' else MATCHING_HIGH), kind))
+        if d.startswith('sib:'):
+            names += [(ch.pick(MATCHING), 'file'), ('s0000000000.c', 'file')]
         # neighbours of the requested output name: editor / temporary-file spellings a careless "write then rename" would hit
         if ch.below(2):
             names.append((base + ch.pick(('.tmp', '~', '.bak', '.new', '.part', '.lock')), 'file'))
@@ -127,20 +134,26 @@ def build_case(ch):
                                                         [('local.get', 0), ('local.set', 9), ('i32.const', 1)], [('i32.add',)],
                                                         [('local.get', 0), ('i32.const', 1), ('call_indirect', 0)])))
         mbytes = wasm.encode(m)
-    return {'module': mbytes, 'bad': bad, 'ref': wasm.encode(ref) if ref is not None else None, 'outdir': outdir, 'form': form,
+    return {'module': mbytes, 'bad': bad, 'outname': outname, 'siblings': list(siblings), 'ref': wasm.encode(ref) if ref is not None else None, 'outdir': outdir, 'form': form,
             'base': base, 'decoys': decoys, 'opts': opts, 'inabs': ch.below(2) == 1, 'variant': variant}
 
 
 def materialise(case, root):
-    for d in ('cwd', 'in', 'out', 'out/sub', 'other', 'target'):
-        os.makedirs(os.path.join(root, d), exist_ok=True)
+    outname = case.get('outname', 'out')
+
+    def real(d):
+        if d.startswith('sib:'):
+            return d[4:]
+        return outname + d[3:] if (d == 'out' or d.startswith('out/')) else d
+    for d in ('cwd', 'in', 'out', 'out/sub', 'other', 'target') + tuple('sib:' + x for x in case.get('siblings', ())):
+        os.makedirs(os.path.join(root, real(d)), exist_ok=True)
     open(os.path.join(root, 'in', 'm.wasm'), 'wb').write(case['module'])
     if case['ref'] is not None:
         open(os.path.join(root, 'in', 'ref.wasm'), 'wb').write(case['ref'])
     open(os.path.join(root, 'target', 'precious.txt'), 'w').write('must survive\n')
     for d, names in case['decoys'].items():
         for n, kind in names:
-            p = os.path.join(root, d, n)
+            p = os.path.join(root, real(d), n)
             if os.path.lexists(p):
                 continue
             if kind == 'file':
@@ -160,7 +173,7 @@ def materialise(case, root):
     elif form == 2:
         outpath = './' + os.path.join(rel_from_cwd, case['base'])
     elif form == 3:
-        outpath = os.path.join('..', 'out', 'sub', '..', case['base']) if outdir == 'out' else os.path.join('..', 'out', 'sub', '.', case['base'])
+        outpath = os.path.join('..', outname, 'sub', '..', case['base']) if outdir == outname else os.path.join('..', outname, 'sub', '.', case['base'])
     elif form == 4:
         outpath = os.path.join(rel_from_cwd, '.', case['base'])
     elif form == 6:
@@ -284,8 +297,10 @@ def task(wid, seed, params):
             classes.append('relative_output_decoys_in_cwd')
         if 'gnu-ld' in case['opts']:
             classes.append('gnu-ld')
-        if case['outdir'] != 'out':
+        if case['outdir'] != case.get('outname', 'out'):
             classes.append('nested_output_dir')
+        if case.get('outname', 'out') != 'out':
+            classes.append('output_directory_name_with_special_characters')
         if case.get('variant', 'plain') != 'plain':
             classes.append('translator_build_' + case['variant'])
         if case['form'] in (6, 7):
